@@ -75,8 +75,10 @@ Definition fact_of (l : line) (n : string) : fact := lookup_fact n (l_facts l).
     [sign] digits [. digits] [(e|E) [sign] digits], at least one mantissa
     digit, nothing before or after.  The result is the exact rational; a
     magnitude that would round to infinity is the "value out of range" error
-    (None).  Not modelled (the generator keeps away, the correspondence would
-    show a disagreement): hexadecimal floats, underscores, inf/nan. *)
+    (None).  Hexadecimal floats (0x1.8p1) are accepted too, see below.  Not
+    modelled: underscores between digits, and the spellings of infinity and
+    NaN, which ParseFloat accepts without error - the values are then not
+    rationals; real plays pin what the code does with them. *)
 
 Definition digit_of (c : ascii) : option Z :=
   let n := N_of_ascii c in
@@ -119,8 +121,7 @@ Definition mk_decimal (neg : bool) (m : Z) (e : Z) : Q :=
 (** 2^1024 - 2^970: the smallest magnitude that rounds to infinity. *)
 Definition float_overflow : Q := inject_Z (2 ^ 1024 - 2 ^ 970).
 
-Definition parse_decimal (s : string) : option Q :=
-  let '(neg, s1) := read_sign s in
+Definition parse_dec_unsigned (neg : bool) (s1 : string) : option Q :=
   let '(m1, n1, s2) := read_digits s1 0 0 in
   let '(m2, n2, s3) := match s2 with
                        | String "."%char tl => read_digits tl m1 0
@@ -143,6 +144,63 @@ Definition parse_decimal (s : string) : option Q :=
         | _ => None
         end
       else None
+  end.
+
+(** Hexadecimal floating-point syntax: 0x / 0X, hexadecimal digits with an
+    optional point (at least one digit), then a MANDATORY binary exponent
+    (p|P) [sign] decimal-digits.  The value is mantissa * 2^exponent, exactly. *)
+Definition hex_digit_of (c : ascii) : option Z :=
+  let n := N_of_ascii c in
+  if (N.leb 48 n && N.leb n 57)%bool then Some (Z.of_N n - 48)%Z
+  else if (N.leb 97 n && N.leb n 102)%bool then Some (Z.of_N n - 87)%Z
+  else if (N.leb 65 n && N.leb n 70)%bool then Some (Z.of_N n - 55)%Z
+  else None.
+
+Fixpoint read_hex_digits (s : string) (acc : Z) (n : Z) : Z * Z * string :=
+  match s with
+  | String c tl => match hex_digit_of c with
+                   | Some d => read_hex_digits tl (acc * 16 + d)%Z (n + 1)%Z
+                   | None => (acc, n, s)
+                   end
+  | EmptyString => (acc, n, s)
+  end.
+
+Definition mk_binary (neg : bool) (m : Z) (e : Z) : Q :=
+  let m := if neg then (- m)%Z else m in
+  if (0 <=? e)%Z then inject_Z (m * 2 ^ e)
+  else Qmake m (Z.to_pos (2 ^ (- e))).
+
+Definition parse_hex_unsigned (neg : bool) (s1 : string) : option Q :=
+  let '(m1, n1, s2) := read_hex_digits s1 0 0 in
+  let '(m2, n2, s3) := match s2 with
+                       | String "."%char tl => read_hex_digits tl m1 0
+                       | _ => (m1, 0%Z, s2)
+                       end in
+  if (n1 + n2 =? 0)%Z then None else
+  match s3 with
+  | String c tl =>
+      if (Ascii.eqb c "p" || Ascii.eqb c "P")%bool then
+        let '(eneg, s4) := read_sign tl in
+        let '(e, ne, s5) := read_exp s4 0 0 in
+        if (ne =? 0)%Z then None else
+        match s5 with
+        | EmptyString =>
+            if (m2 =? 0)%Z then Some 0%Q else
+            let q := mk_binary neg m2 ((if eneg then - e else e) - 4 * n2) in
+            if Qle_bool float_overflow (Qabs q) then None else Some q
+        | _ => None
+        end
+      else None
+  | EmptyString => None
+  end.
+
+Definition parse_decimal (s : string) : option Q :=
+  let '(neg, s1) := read_sign s in
+  match s1 with
+  | String "0"%char (String x tl) =>
+      if (Ascii.eqb x "x" || Ascii.eqb x "X")%bool then parse_hex_unsigned neg tl
+      else parse_dec_unsigned neg s1
+  | _ => parse_dec_unsigned neg s1
   end.
 
 (** * Time stamp and typed value of one match *)
